@@ -7,31 +7,32 @@ the Go code on every run, including all mutation outcomes) and
 Model/Sha2pcRounds.lean (the four round functions over an abstract curve
 group, the Chou-Orlandi model of C06 and the garbling model of C01).
 
+The model is the code of /repo at and after the five repairs 0e7671a (round 4
+checks the stored sender point), 68f93f2 (round 3 checks the stored A^{-a}),
+d9a1171 (decoders reject trailing bytes), 2eb87d5 (bit field read with
+io.ReadFull), 217fb4c (readChunk rejects padded length prefixes); the check
+requires these repairs as source facts.
+
 Statement (properties.jsonl), split into the parts below:
 
  (A) "encode-then-decode is the identity with the documented fixed sizes" —
      `C18_enc_dec_id_{Round1,Round2,Round3,GarblerSession,EvaluatorSession}`,
-     `C18_doc_len_*`, `C18_doc_len_concrete`.  Full strength (every curve
-     name/width, every well-formed payload; point decompression abstract).
+     `C18_doc_len_concrete`.  Full strength (every curve name/width, every
+     well-formed payload; point decompression abstract).
  (B) "malformed bytes are rejected with an error, never a crash" —
-       crash, decoders: `C18_dec_total_*`: NO decoder crashes on ANY bytes
-         (every Go slice/index expression is a checked operation of the model).
-         Full strength.
-       crash, after the decoder: FALSE for the code in /repo.  A decoded
-         evaluator session whose sender point is not on the curve makes
-         `EvaluatorRound4` crash (`C18_round4_crash_witness`), a decoded garbler
-         session whose `A^{-a}` is not on the curve makes `GarblerRound3` crash
-         (`C18_round3_crash_witness`); `crypto/elliptic` panics on invalid
-         points and these two call sites have no `ensureOnCurve`.  Replayed on
-         the Go code by the harness on every run.  `C18_rounds_no_crash_partial`
-         proves crash-freedom when the two stored points are curve points.
-       rejected: FALSE as stated for four of the five decoders:
-         `C18_trailing_bytes_accepted_*` (Round1, GarblerSession,
-         EvaluatorSession ignore everything after the last field),
-         `C18_short_bit_field_accepted` (EvaluatorSession accepts a chunk that
-         ends inside the bit field), `C18_uvarint_nonminimal_accepted` (all
-         length prefixes).  `C18_dec_canonical_Round3`: the round-3 format IS
-         canonical (decode b = ok m → encode m = b), full strength.
+       `C18_dec_total_*`: no decoder crashes on ANY bytes (every Go slice/index
+         expression is a checked operation of the model).  Full strength.
+       `C18_dec_canonical_*` (all five decoders): decode b = ok m implies that m
+         is well formed and encode m = b.  So the decoders accept EXACTLY the
+         image of the encoders: nothing malformed is accepted, no two byte
+         strings decode to the same value.  Full strength (Round2 under the
+         stated soundness of decompression).  `C18_accepted_has_doc_len`: every
+         accepted input has exactly the documented size; `C18_chunk_canonical`:
+         a length prefix is accepted in its minimal form only.
+       `C18_rounds_no_crash`: rounds 2, 3, 4 never crash, on any state and any
+         message (in particular on everything the decoders accept);
+         `C18_offcurve_state_rejected`: stored points that are not on the curve
+         are an error of the round.
  (C) "messages of another session or curve ... are rejected with an error" —
      `C18_session_mismatch_rejected`, `C18_curve_mismatch_rejected`.
  (D) "Serialising any round message or either party's session state and
@@ -56,10 +57,9 @@ open Mpc.Sha2pc
 
 theorem C18_enc_dec_id_Round1 (c : Curve) (hc : c.WF) (m : Round1) (hm : m.WF c) :
     ∃ enc, encodeRound1 c m = .ok enc ∧ decodeRound1 c enc = .ok m ∧
-      enc.length = 2 + 8 + 1 + c.name.length + 2 * c.byteLen := by
-  refine ⟨_, encodeRound1_eq c m hm.name, ?_, encodeRound1_length c hc m _ (encodeRound1_eq c m hm.name)⟩
-  have := decodeRound1_encode c hc m hm _ [] (encodeRound1_eq c m hm.name)
-  simpa using this
+      enc.length = 2 + 8 + 1 + c.name.length + 2 * c.byteLen :=
+  ⟨_, encodeRound1_eq c m hm.name, decodeRound1_encode c hc m hm _ (encodeRound1_eq c m hm.name),
+    encodeRound1_length c hc m _ (encodeRound1_eq c m hm.name)⟩
 
 theorem C18_enc_dec_id_Round2 (c : Curve) (hc : c.WF) (m : Round2) (hm : m.WF c) :
     ∃ enc, encodeRound2 c m = .ok enc ∧ decodeRound2 c enc = .ok m ∧
@@ -81,9 +81,7 @@ theorem C18_enc_dec_id_GarblerSession (c : Curve) (hc : c.WF) (s : GarblerSessio
     rw [encodeSenderSetup_eq c s hs.name]
     exact ⟨_, rfl⟩
   obtain ⟨enc, he⟩ := he
-  refine ⟨enc, he, ?_, encodeGarblerSession_length c hc s enc he⟩
-  have := decodeGarblerSession_encode c hc s hs enc [] he
-  simpa using this
+  exact ⟨enc, he, decodeGarblerSession_encode c hc s hs enc he, encodeGarblerSession_length c hc s enc he⟩
 
 theorem C18_enc_dec_id_EvaluatorSession (c : Curve) (hc : c.WF) (s : EvaluatorSession) (hs : s.WF c) :
     ∃ enc, encodeEvaluatorSession c s = .ok enc ∧ decodeEvaluatorSession c enc = .ok s ∧
@@ -94,9 +92,7 @@ theorem C18_enc_dec_id_EvaluatorSession (c : Curve) (hc : c.WF) (s : EvaluatorSe
     rw [encodeChoiceBundle_eq c s hs]
     exact ⟨_, rfl⟩
   obtain ⟨enc, he⟩ := he
-  refine ⟨enc, he, ?_, encodeEvaluatorSession_length c hc s hs enc he⟩
-  have := decodeEvaluatorSession_encode c hc s hs enc [] he
-  simpa using this
+  exact ⟨enc, he, decodeEvaluatorSession_encode c hc s hs enc he, encodeEvaluatorSession_length c hc s hs enc he⟩
 
 /-- The sizes pinned by sha2pc_test.go (`TestPayloadSizesByCurve`: 80 / 8240 /
 178 / 8306 bytes on P-256, 72 / 7216 / 158 / 7274 on P-224, 707146 for round 3)
@@ -134,118 +130,95 @@ theorem C18_dec_total_GarblerSession (c : Curve) (data : Bytes) : decodeGarblerS
 theorem C18_dec_total_EvaluatorSession (c : Curve) (data : Bytes) : decodeEvaluatorSession c data ≠ .panic :=
   decodeEvaluatorSession_noPanic c data
 
-/-! ## (B) canonicity and its exceptions -/
+/-! ## (B) the decoders accept exactly the image of the encoders -/
 
-/-- Round 3 is canonical: if bytes decode, the decoded payload is well formed
-and encodes to exactly those bytes (so no two byte strings decode to the same
-payload and nothing malformed is accepted). -/
+theorem C18_dec_canonical_Round1 (c : Curve) (data : Bytes) (m : Round1) (h : decodeRound1 c data = .ok m) :
+    encodeRound1 c m = .ok data ∧ m.WF c :=
+  encodeRound1_decode c data m h
+
+/-- `hp`: `elliptic.UnmarshalCompressed` returns the ordinate with the requested
+parity (the driver's instance does; the Go function selects the root by its low
+bit). -/
+theorem C18_dec_canonical_Round2 (c : Curve) (hp : c.ParitySound) (data : Bytes) (m : Round2)
+    (h : decodeRound2 c data = .ok m) : encodeRound2 c m = .ok data ∧ m.WF c :=
+  encodeRound2_decode c hp data m h
+
 theorem C18_dec_canonical_Round3 (counts : List Nat) (data : Bytes) (m : Round3)
     (h : decodeRound3 counts data = .ok m) : encodeRound3 counts m = .ok data ∧ m.WF counts :=
   encodeRound3_decode counts data m h
 
-/-- Round 1 is canonical AT THE DOCUMENTED SIZE: bytes of exactly that length
-that decode are the encoding of what they decode to.  (So every accepted
-non-canonical round-1 input is longer than documented: trailing bytes or a
-padded length prefix, the two exceptions below.)  The analogous statements for
-Round2 / GarblerSession / EvaluatorSession are not proved; the harness checks
-on every run that each accepted non-canonical input of any decoder is
-explained by one of the listed leniencies. -/
-theorem C18_dec_canonical_Round1_at_doc_len (c : Curve) (hc : c.WF) (data : Bytes) (m : Round1)
-    (h : decodeRound1 c data = .ok m) (hlen : data.length = 2 + 8 + 1 + c.name.length + 2 * c.byteLen) :
-    encodeRound1 c m = .ok data :=
-  encodeRound1_decode c hc data m h hlen
+theorem C18_dec_canonical_GarblerSession (c : Curve) (data : Bytes) (s : GarblerSession)
+    (h : decodeGarblerSession c data = .ok s) : encodeGarblerSession c s = .ok data ∧ s.WF c :=
+  encodeGarblerSession_decode c data s h
 
-/-- NEGATION WITNESS of "malformed bytes are rejected" for `DecodeRound1`:
-the encoding followed by ANY bytes decodes to the same payload. -/
-theorem C18_trailing_bytes_accepted_Round1 (c : Curve) (hc : c.WF) (m : Round1) (hm : m.WF c) (enc extra : Bytes)
-    (he : encodeRound1 c m = .ok enc) (hx : extra ≠ []) :
-    decodeRound1 c (enc ++ extra) = .ok m ∧ enc ++ extra ≠ enc :=
-  ⟨decodeRound1_encode c hc m hm enc extra he, by
-    intro h; exact hx (List.append_right_eq_self.mp h)⟩
+theorem C18_dec_canonical_EvaluatorSession (c : Curve) (data : Bytes) (s : EvaluatorSession)
+    (h : decodeEvaluatorSession c data = .ok s) : encodeEvaluatorSession c s = .ok data ∧ s.WF c :=
+  encodeEvaluatorSession_decode c data s h
 
-theorem C18_trailing_bytes_accepted_GarblerSession (c : Curve) (hc : c.WF) (s : GarblerSession) (hs : s.WF c)
-    (enc extra : Bytes) (he : encodeGarblerSession c s = .ok enc) (hx : extra ≠ []) :
-    decodeGarblerSession c (enc ++ extra) = .ok s ∧ enc ++ extra ≠ enc :=
-  ⟨decodeGarblerSession_encode c hc s hs enc extra he, by
-    intro h; exact hx (List.append_right_eq_self.mp h)⟩
+/-- Every accepted input has exactly the documented size: trailing bytes,
+truncations and padded length prefixes are all rejected. -/
+theorem C18_accepted_has_doc_len (c : Curve) (hc : c.WF) (counts : List Nat) (data : Bytes) :
+    (∀ m, decodeRound1 c data = .ok m → data.length = 2 + 8 + 1 + c.name.length + 2 * c.byteLen) ∧
+    (∀ m, c.ParitySound → decodeRound2 c data = .ok m →
+        data.length = 2 + 8 + 1 + c.name.length + nBits * c.byteLen + signBytes) ∧
+    (∀ m, decodeRound3 counts data = .ok m → data.length = round3Len counts) ∧
+    (∀ s, decodeGarblerSession c data = .ok s →
+        data.length = 2 + 8 + (putUvarint (1 + c.name.length + 5 * c.byteLen)).length +
+          (1 + c.name.length + 5 * c.byteLen)) ∧
+    (∀ s, decodeEvaluatorSession c data = .ok s →
+        data.length = 2 + 8 + (putUvarint (1 + c.name.length + 2 * c.byteLen + nBits * c.byteLen + signBytes)).length +
+          (1 + c.name.length + 2 * c.byteLen + nBits * c.byteLen + signBytes)) := by
+  refine ⟨?_, ?_, ?_, ?_, ?_⟩
+  · intro m h
+    exact encodeRound1_length c hc m data (encodeRound1_decode c data m h).1
+  · intro m hp h
+    exact encodeRound2_length c hc m data (encodeRound2_decode c hp data m h).1
+  · intro m h
+    obtain ⟨h1, h2⟩ := encodeRound3_decode counts data m h
+    rw [encodeRound3_eq counts m h2] at h1
+    cases h1
+    exact round3_body_length counts m h2
+  · intro s h
+    exact encodeGarblerSession_length c hc s data (encodeGarblerSession_decode c data s h).1
+  · intro s h
+    obtain ⟨h1, h2⟩ := encodeEvaluatorSession_decode c data s h
+    exact encodeEvaluatorSession_length c hc s h2 data h1
 
-theorem C18_trailing_bytes_accepted_EvaluatorSession (c : Curve) (hc : c.WF) (s : EvaluatorSession) (hs : s.WF c)
-    (enc extra : Bytes) (he : encodeEvaluatorSession c s = .ok enc) (hx : extra ≠ []) :
-    decodeEvaluatorSession c (enc ++ extra) = .ok s ∧ enc ++ extra ≠ enc :=
-  ⟨decodeEvaluatorSession_encode c hc s hs enc extra he, by
-    intro h; exact hx (List.append_right_eq_self.mp h)⟩
+/-- `readChunk` accepts a length prefix in its minimal (`PutUvarint`) form only;
+e.g. the two-byte form `85 00` of 5 is an error. -/
+theorem C18_chunk_canonical :
+    (∀ r d r', readChunk r = .ok (d, r') → r = writeChunk d ++ r') ∧
+    (∀ rest, readChunk (0x85 :: 0x00 :: rest) = .error) := by
+  refine ⟨readChunk_ok, ?_⟩
+  intro rest
+  have hu : readUvarint (0x85 :: 0x00 :: rest) = .ok (5, rest) := by simp [readUvarint, readUvarintGo]
+  have hp : putUvarint 5 = [5] := by rw [putUvarint]; simp
+  unfold readChunk
+  rw [hu]
+  simp only [Res.ok_bind]
+  rw [if_pos (by rw [hp]; simp only [List.length_cons, List.length_nil]; omega)]
 
-/-- Bytes inside the length-prefixed chunk after the last field are ignored
-too (`decodeCOSenderSetup`, `decodeChoiceBundle`). -/
-theorem C18_inner_trailing_bytes_accepted (c : Curve) (hc : c.WF) (s : GarblerSession) (hs : s.WF c)
-    (e : EvaluatorSession) (he : e.WF c) (inner1 inner2 extra : Bytes)
-    (h1 : encodeSenderSetup c s = .ok inner1) (h2 : encodeChoiceBundle c e = .ok inner2) :
-    decodeSenderSetup c s.sid (inner1 ++ extra) = .ok s ∧ decodeChoiceBundle c e.sid (inner2 ++ extra) = .ok e :=
-  ⟨decodeSenderSetup_encode c hc s hs inner1 extra h1, decodeChoiceBundle_encode c hc e he inner2 extra h2⟩
+/-! ## (B) no round crashes -/
 
-/-- NEGATION WITNESS: an evaluator-session chunk that stops `32 - j` bytes early
-(inside the bit field) is accepted; the missing choice bits become zero. -/
-theorem C18_short_bit_field_accepted (c : Curve) (hc : c.WF) (s : EvaluatorSession) (hs : s.WF c) (j : Nat)
-    (hj : 0 < j) (hj2 : j < signBytes) :
-    decodeChoiceBundle c s.sid (writeChunk c.name ++ (beBytes c.byteLen s.ax ++ (beBytes c.byteLen s.ay ++
-      (s.scalars.flatMap (beBytes c.byteLen) ++ (bitsToBytes s.bits).take j)))) =
-    .ok { s with bits := (bytesToBits ((bitsToBytes s.bits).take j ++ List.replicate (signBytes - j) 0)).take nBits } :=
-  decodeChoiceBundle_short_bits c hc s hs j hj hj2
-
-/-- NEGATION WITNESS: `binary.ReadUvarint` accepts the two-byte form `85 00` of 5,
-whose canonical (`PutUvarint`) form is the single byte `05`. -/
-theorem C18_uvarint_nonminimal_accepted (rest : Bytes) :
-    readUvarint (0x85 :: 0x00 :: rest) = .ok (5, rest) ∧ putUvarint 5 = [5] := by
-  constructor
-  · simp [readUvarint, readUvarintGo]
-  · rw [putUvarint]; simp
-
-/-! ## (B) crashes after the decoder -/
-
-/-- PARTIAL (no-crash for the two rounds that consume decoded state): when the
-stored points are curve points, neither round crashes, on any message. -/
-theorem C18_rounds_no_crash_partial {G : Type} (P : Params G) :
+/-- Rounds 2, 3 and 4 never crash: every use of a stored or received point is
+preceded by `ensureOnCurve`. -/
+theorem C18_rounds_no_crash {G : Type} (P : Params G) :
+    (∀ (msg : Round1) (b : Bytes) (scalars : List Nat), round2 P msg b scalars ≠ .panic) ∧
     (∀ (st : GarblerSession) (a : Bytes) (req : Round2) (key : Bytes) (r0 : Label) (inl : Nat → Label),
-        (P.crypto.ofPt ⟨st.ainvx, st.ainvy⟩).isSome → round3 P st a req key r0 inl ≠ .panic) ∧
-    (∀ (st : EvaluatorSession) (msg : Round3),
-        (P.crypto.ofPt ⟨st.ax, st.ay⟩).isSome → round4 P st msg ≠ .panic) :=
-  ⟨fun st a req key r0 inl h => round3_noPanic P st a req key r0 inl h,
-   fun st msg h => round4_noPanic P st msg h⟩
+        round3 P st a req key r0 inl ≠ .panic) ∧
+    (∀ (st : EvaluatorSession) (msg : Round3), round4 P st msg ≠ .panic) :=
+  ⟨fun msg b scalars => round2_noPanic P msg b scalars,
+   fun st a req key r0 inl => round3_noPanic P st a req key r0 inl,
+   fun st msg => round4_noPanic P st msg⟩
 
-/-- NEGATION WITNESS of "never a crash": the BYTES of an evaluator session whose
-sender point is not on the curve decode without error, and round 4 run from
-them crashes (Go: `crypto/elliptic: ScalarMult was called on an invalid
-point`). -/
-theorem C18_round4_crash_witness {G : Type} (P : Params G) (hc : P.curve.WF) (st : EvaluatorSession)
-    (hst : st.WF P.curve) (msg : Round3) (hmsg : msg.WF (countsOf P.circ)) (esb r3b : Bytes)
-    (he : encodeEvaluatorSession P.curve st = .ok esb) (h3 : encodeRound3 (countsOf P.circ) msg = .ok r3b)
-    (hsid : msg.sid = st.sid) (hA : P.crypto.ofPt ⟨st.ax, st.ay⟩ = none) :
-    decodeEvaluatorSession P.curve esb = .ok st ∧ round4B P esb r3b = .panic := by
-  have hd := decodeEvaluatorSession_encode P.curve hc st hst esb [] he
-  rw [List.append_nil] at hd
-  refine ⟨hd, ?_⟩
-  rw [round4B_eq P hc st hst msg hmsg esb r3b he h3]
-  exact round4_panics P st msg hA hst.count hst.bits hmsg.cts hsid
-
-/-- NEGATION WITNESS: the bytes of a garbler session whose `A^{-a}` is not on
-the curve decode without error, and round 3 run from them crashes (Go:
-`crypto/elliptic: Add was called on an invalid point`). -/
-theorem C18_round3_crash_witness {G : Type} (P : Params G) (hc : P.curve.WF) (st : GarblerSession)
-    (hst : st.WF P.curve) (req : Round2) (hreq : req.WF P.curve) (gsb r2b a key : Bytes) (r0 : Label)
-    (inl : Nat → Label) (hg : encodeGarblerSession P.curve st = .ok gsb) (h2 : encodeRound2 P.curve req = .ok r2b)
-    (hsid : req.sid = st.sid) (ha : a.length = 32)
-    (hA : (P.crypto.ofPt ⟨st.ax, st.ay⟩).isSome) (hp : ∀ p ∈ req.choices, (P.crypto.ofPt p).isSome)
-    (hI : P.crypto.ofPt ⟨st.ainvx, st.ainvy⟩ = none) :
-    decodeGarblerSession P.curve gsb = .ok st ∧ round3B P gsb a r2b key r0 inl = .panic := by
-  have hd := decodeGarblerSession_encode P.curve hc st hst gsb [] hg
-  rw [List.append_nil] at hd
-  refine ⟨hd, ?_⟩
-  rw [round3B_eq P hc st hst req hreq gsb r2b hg h2]
-  cases hch : req.choices with
-  | nil => have := hreq.count; rw [hch] at this; simp [nBits] at this
-  | cons p0 rest =>
-    rw [round3_panics P st a req key r0 inl p0 rest hsid ha hch hreq.count hA (hp p0 (by rw [hch]; simp)) hI]
-    rfl
+/-- A stored sender point (evaluator) or `A^{-a}` (garbler) that is not on the
+curve makes the round return an error. -/
+theorem C18_offcurve_state_rejected {G : Type} (P : Params G) :
+    (∀ (st : EvaluatorSession) (msg : Round3), P.crypto.ofPt ⟨st.ax, st.ay⟩ = none → round4 P st msg = .error) ∧
+    (∀ (st : GarblerSession) (choices : List Point) (wires : Nat → Label × Label) (n : Nat),
+        P.crypto.ofPt ⟨st.ainvx, st.ainvy⟩ = none → encryptCO P.crypto st choices wires n = .error) :=
+  ⟨fun st msg h => round4_offcurve_error P st msg h,
+   fun st choices wires n h => encryptCO_offcurve_error P.crypto st choices wires n h⟩
 
 /-! ## (C) foreign session, foreign curve -/
 
@@ -264,21 +237,20 @@ theorem C18_session_mismatch_rejected {G : Type} (P : Params G) :
    fun msg b scalars m2 es h => round2_sid P msg b scalars m2 es h⟩
 
 /-- Every encoding that carries a curve name (round 1, round 2, both session
-states) is rejected by the decoder of a curve with a different name, also
-with bytes appended.  (Round 3 carries no curve; a round-3 message of a session
+states) is rejected by the decoder of a curve with a different name.  (Round 3 carries no curve; a round-3 message of a session
 on another curve has another session id, see above.) -/
 theorem C18_curve_mismatch_rejected (c c' : Curve) (hc' : c'.WF) (hne : c'.name ≠ c.name) :
     (∀ (m : Round1) (enc extra : Bytes), m.sid < 2 ^ 64 → encodeRound1 c' m = .ok enc →
         decodeRound1 c (enc ++ extra) = .error) ∧
     (∀ (m : Round2) (enc : Bytes), m.sid < 2 ^ 64 → encodeRound2 c' m = .ok enc → decodeRound2 c enc = .error) ∧
-    (∀ (s : GarblerSession) (enc extra : Bytes), s.sid < 2 ^ 64 → encodeGarblerSession c' s = .ok enc →
-        decodeGarblerSession c (enc ++ extra) = .error) ∧
-    (∀ (s : EvaluatorSession) (enc extra : Bytes), s.WF c' → encodeEvaluatorSession c' s = .ok enc →
-        decodeEvaluatorSession c (enc ++ extra) = .error) :=
+    (∀ (s : GarblerSession) (enc : Bytes), s.sid < 2 ^ 64 → encodeGarblerSession c' s = .ok enc →
+        decodeGarblerSession c enc = .error) ∧
+    (∀ (s : EvaluatorSession) (enc : Bytes), s.WF c' → encodeEvaluatorSession c' s = .ok enc →
+        decodeEvaluatorSession c enc = .error) :=
   ⟨fun m enc extra hs he => decodeRound1_other_curve c c' hc' m hs enc extra he hne,
    fun m enc hs he => decodeRound2_other_curve c c' hc' m hs enc he hne,
-   fun s enc extra hs he => decodeGarblerSession_other_curve c c' hc' s hs enc extra he hne,
-   fun s enc extra hs he => decodeEvaluatorSession_other_curve c c' hc' s hs enc extra he hne⟩
+   fun s enc hs he => decodeGarblerSession_other_curve c c' hc' s hs enc he hne,
+   fun s enc hs he => decodeEvaluatorSession_other_curve c c' hc' s hs enc he hne⟩
 
 /-! ## (D) resumption -/
 
@@ -335,8 +307,8 @@ theorem C18_sha2pc_correct_given_circuit_partial {G : Type} (P : Params G) (a b 
 
 /-! ## Non-vacuity -/
 
-/-- A toy curve: name "T", one-byte field, every abscissa decompresses to 1. -/
-def toyCurve : Curve := { name := [0x54], byteLen := 1, decompress := fun _ _ => some 1 }
+/-- A toy curve: name "T", one-byte field, every abscissa decompresses to 1 (odd) or 2 (even). -/
+def toyCurve : Curve := { name := [0x54], byteLen := 1, decompress := fun _ odd => some (if odd then 1 else 2) }
 
 example : toyCurve.WF := ⟨by decide, by decide, by decide, by decide⟩
 
@@ -344,13 +316,20 @@ def toyR1 : Round1 := { sid := 7, curveName := [0x54], ax := 200, ay := 3 }
 instance (c : Curve) (v : Nat) : Decidable (fits c v) := by unfold fits; infer_instance
 
 example : toyR1.WF toyCurve := ⟨by decide, rfl, by decide, by decide⟩
-/-- the documented encoding, the same with a trailing byte (accepted), with the
-two-byte length prefix `81 00` (accepted), and one byte short (error). -/
+/-- the documented encoding; the same with a trailing byte, with the two-byte
+length prefix `81 00`, and one byte short are all errors. -/
 example : encodeRound1 toyCurve toyR1 = .ok [0x52, 0x31, 0, 0, 0, 0, 0, 0, 0, 7, 1, 0x54, 200, 3] := by decide +kernel
-example : decodeRound1 toyCurve [0x52, 0x31, 0, 0, 0, 0, 0, 0, 0, 7, 1, 0x54, 200, 3, 0xff] = .ok toyR1 := by
+example : decodeRound1 toyCurve [0x52, 0x31, 0, 0, 0, 0, 0, 0, 0, 7, 1, 0x54, 200, 3] = .ok toyR1 := by
   decide +kernel
-example : decodeRound1 toyCurve [0x52, 0x31, 0, 0, 0, 0, 0, 0, 0, 7, 0x81, 0, 0x54, 200, 3] = .ok toyR1 := by
+example : decodeRound1 toyCurve [0x52, 0x31, 0, 0, 0, 0, 0, 0, 0, 7, 1, 0x54, 200, 3, 0xff] = .error := by
   decide +kernel
+example : decodeRound1 toyCurve [0x52, 0x31, 0, 0, 0, 0, 0, 0, 0, 7, 0x81, 0, 0x54, 200, 3] = .error := by
+  decide +kernel
+example : toyCurve.ParitySound := by
+  intro x odd y h
+  simp only [toyCurve, Option.some.injEq] at h
+  subst h
+  cases odd <;> decide
 example : decodeRound1 toyCurve [0x52, 0x31, 0, 0, 0, 0, 0, 0, 0, 7, 1, 0x54, 200] = .error := by decide +kernel
 
 def toyGS : GarblerSession := { sid := 9, curveName := [0x54], scalar := 5, ax := 1, ay := 2, ainvx := 3, ainvy := 4 }
@@ -417,7 +396,7 @@ example (a b : Bytes) (ha : a.length = 32) (hb : b.length = 32) (key : Bytes) (r
   C18_sha2pc_correct_given_circuit_partial toyParams a b 3 42 [] key r0 inl (by decide +kernel) rfl rfl
     (by decide +kernel) ha hb (toyCrypto_onCurve _) (toyCrypto_onCurve _) (fun _ _ => toyCrypto_onCurve _)
 
-/-- The crash witnesses are satisfiable: in the toy group `(1, 1)` is not a curve point. -/
+/-- Off-curve coordinates exist in the toy group: `(1, 1)` is not a curve point. -/
 example : toyCrypto.ofPt ⟨1, 1⟩ = none ∧ (toyCrypto.ofPt ⟨1, 0⟩).isSome := by decide
 
 end Mpc
